@@ -32,7 +32,8 @@ Why(ob, D) ==
   ELSE IF EagerChild(ob) THEN "child-element-created-outside-its-slot"
   ELSE LET el == ob.abs.items[1].elem  f == SingleCall(el)  o == OptsOf(ob, D) IN
        \* the *_first contexts evaluate the site twice (and observe the first result)
-       IF f # "" /\ o.enableObjectSlots /\ CountEv(ob.rt.events, "call", f) # Evaluations(ob) THEN "call-child-not-once"
+       \* (beside `v-slots` the call child is ordinary default-slot content: evaluated whenever that slot runs)
+       IF f # "" /\ o.enableObjectSlots /\ ~HasVSlots(el.attrs) /\ CountEv(ob.rt.events, "call", f) # Evaluations(ob) THEN "call-child-not-once"
        ELSE ""
 
 ListedDevs == {"Dev_SharedTemporaryAcrossEvaluations"}
